@@ -124,6 +124,7 @@ type issuedTok struct {
 type namedRealm struct {
 	Seq  int
 	Host string // URL host of the realm
+	Path string // path of the realm
 	HTTP bool
 }
 
@@ -335,7 +336,8 @@ func (w *world) challenge(owner int, ch ChallengeSpec, e *rm.Entry, insufficient
 	bearer := ""
 	if ch.hasBearer() || ch.Kind == "malformed" {
 		realm, t := w.realm(owner, ch)
-		w.named[owner] = append(w.named[owner], namedRealm{Seq: e.Seq, Host: w.c.Hosts[t].Name, HTTP: strings.HasPrefix(realm, "http://")})
+		rpath := realm[strings.Index(realm, "/token/"):]
+		w.named[owner] = append(w.named[owner], namedRealm{Seq: e.Seq, Host: w.c.Hosts[t].Name, Path: rpath, HTTP: strings.HasPrefix(realm, "http://")})
 		parts := []string{fmt.Sprintf(`realm=%q`, realm)}
 		if !ch.NoService {
 			parts = append(parts, fmt.Sprintf(`service="svc-%d"`, owner))
